@@ -185,15 +185,16 @@ Proof.
 Qed.
 
 (* the ReST entry: with word_wrap on (inside Fill's fragment) the text has exactly the words of the raw
-   lines, in order - as printed, and after the parser's re-join; word_wrap off gives the same words *)
+   lines, in order - as printed, and after the parser's re-join; word_wrap off gives the same words; the
+   caller's param is not touched either way *)
 Lemma C18_rest_entry_lemma : forall w name p ed et edd ls p' tw p1,
     rest_raw_lines name p ed et edd = Ok (ls, p') ->
     Forall (fun l => no_exotic_space l = true) ls ->
     emit_param_str w name p Rest ed et true edd = Ok (tw, p1) ->
-    p1 = p'
+    p1 = p
     /\ words tw = concat (map words ls)
     /\ words (rejoin tw) = concat (map words ls)
-    /\ exists tu, emit_param_str w name p Rest ed et false edd = Ok (tu, p')
+    /\ exists tu, emit_param_str w name p Rest ed et false edd = Ok (tu, p)
                   /\ words tu = concat (map words ls).
 Proof.
   intros w name p ed et edd ls p' tw p1 Hraw Hn H.
@@ -299,8 +300,7 @@ Lemma emit_docstring_assemble : forall w st ww edd i,
       do doc <- doc_part w ww i;
       do pl <- emit_items (fun k p => emit_param_str w k p st true true ww edd) ps;
       do ret <- ret_part w st ww edd i;
-      Ok (assemble st doc (fst pl) (fst ret),
-          mkIR (ir_name i) (ir_type i) (ir_doc i) (gparams_of (snd pl)) (snd ret) (ir_internal i))
+      Ok (assemble st doc (fst pl) (fst ret), i)
     end.
 Proof. reflexivity. Qed.
 
@@ -441,4 +441,14 @@ Proof.
     f_equal.
     + inversion Hf; subst; [reflexivity|]. destruct st; cbn [map concat] in *; congruence.
     + change (?h ++ [nl] ++ ?t) with (h ++ nl :: t). rewrite !words_app_nl. now rewrite Hwr.
+Qed.
+
+(* ... and neither call writes into the caller's IR *)
+Lemma C18_docstring_words_pure_lemma : forall w st edd i tw i1,
+    ir_plain st edd i = true ->
+    emit_docstring w st true edd i = Ok (tw, i1) ->
+    i1 = i /\ exists tu, emit_docstring w st false edd i = Ok (tu, i) /\ words tw = words tu.
+Proof.
+  intros w st edd i tw i1 Hpl H. pose proof (emit_docstring_pure _ _ _ _ _ _ _ H) as E. subst i1.
+  split; [reflexivity|]. exact (C18_docstring_words_lemma w st edd i tw i Hpl H).
 Qed.
